@@ -146,6 +146,37 @@ pub fn cases(mix: &str, n: usize, seed: u64) -> Vec<Case> {
                     out.push(Case { kind: "nesting", src: s, intended: None, pair_of: None, decl: None });
                 }
             }
+            // nesting inside the declaration (type position), closed / unclosed / with a stray byte innermost
+            for (open, close) in [("[", "]"), ("(", ")"), ("Vec<", ">"), ("&[", "]"), ("(A, [", "])")] {
+                for inner in ["u8", "", "u8 %", "u8;", "'a"] {
+                    for closed in [true, false] {
+                        let mut s = b"@(a: ".to_vec();
+                        s.extend(open.repeat(depth).as_bytes());
+                        s.extend(inner.as_bytes());
+                        if closed {
+                            s.extend(close.repeat(depth).as_bytes());
+                        }
+                        s.extend(b")\n<p>@a</p>\n");
+                        out.push(Case { kind: "nesting", src: s, intended: None, pair_of: None, decl: None });
+                    }
+                }
+            }
+            // nesting inside directive fragments: conditions, loop expressions, match patterns, call arguments
+            for (pre, post) in [("@if ", " {x}"), ("@for a in ", " {x}"), ("@match ", " { _ => {x} }"), ("@:c(", ")"), ("@if let Some", " = b {x}"), ("@for ", " in b {x}")] {
+                for (open, close) in [("(", ")"), ("[", "]"), ("f(", ")"), ("{", "}"), ("!(", ")"), ("&(", ")"), ("(a, (", "))")] {
+                    for closed in [true, false] {
+                        let mut s = b"@()\n".to_vec();
+                        s.extend(pre.as_bytes());
+                        s.extend(open.repeat(depth).as_bytes());
+                        s.extend(b"a");
+                        if closed {
+                            s.extend(close.repeat(depth).as_bytes());
+                        }
+                        s.extend(post.as_bytes());
+                        out.push(Case { kind: "nesting", src: s, intended: None, pair_of: None, decl: None });
+                    }
+                }
+            }
             for closed in [true, false] {
                 let mut s = b"@()\n".to_vec();
                 for _ in 0..depth {
@@ -293,6 +324,8 @@ pub fn cases(mix: &str, n: usize, seed: u64) -> Vec<Case> {
         let tys: &[&str] = &[
             "Content", "ContentType", "Contents", "MyContent", "&Content", "Vec<Content>", "[Content]", "&str", "i32",
             "&'a [T]", "(A, Content)", "impl Content", "dyn Content", "&'a Content", "Option<Content>", "Content<T>",
+            // one-element tuples and trailing commas are significant to rustc: `(A,)` is not `(A)`
+            "(A,)", "(A, B,)", "Vec<(Foo,)>", "HashMap<K, V,>", "&[(u8,)]", "((A,),)", "Foo<'a, T>", "(Content,)", "&'a (A,)",
         ];
         let names: &[&str] = &["a", "_ructe_out_", "W", "out", "Content", "content", "io", "b2", "_"];
         let seps: &[&str] = &[": ", ":", " : ", " :", ":  ", ":\n", ":\t"];
@@ -404,6 +437,9 @@ pub fn run(args: &crate::Args) {
     let mut stats = Counter::new();
     let mut codes: Vec<Option<String>> = Vec::with_capacity(cases.len());
     let mut distinct = std::collections::HashSet::new();
+    const TIME_LIMIT_S: u64 = 8;
+    let mut timed = Timed::new(|src: Vec<u8>| (ructe::verif_hooks::compile("t_html", &src), ructe::verif_hooks::ast_dump(&src)));
+    let mut last_timeout_kind = "";
     for (i, c) in cases.iter().enumerate() {
         stats.hit(&format!("kind.{}", c.kind));
         let name = "t_html";
@@ -413,7 +449,30 @@ pub fn run(args: &crate::Args) {
         writeln!(meta, "{} {}", c.kind, i).unwrap();
         writeln!(meta, "{} {}", c.kind, i).unwrap();
         let src = c.src.clone();
-        let r = catch(move || (ructe::verif_hooks::compile(name, &src), ructe::verif_hooks::ast_dump(&src)));
+        // "compilation terminates": a parse of a few hundred bytes that takes longer than the limit is
+        // reported as non-termination (ordinary cases take microseconds); after a few of them the
+        // remaining cases of the same kind are answered `timeout` without being run
+        let r = if timed.timeouts >= 3 && c.kind == last_timeout_kind {
+            None
+        } else {
+            timed.call(src, std::time::Duration::from_secs(TIME_LIMIT_S))
+        };
+        let Some(r) = r else {
+            stats.hit("result.timeout");
+            last_timeout_kind = c.kind;
+            writeln!(imp, "timeout").unwrap();
+            writeln!(imp, "timeout").unwrap();
+            writeln!(
+                orc,
+                "{{\"tags\":[\"C11\"],\"kind\":\"no-termination\",\"case\":{i},\"src_hex\":{},\"src\":{},\"detail\":{}}}",
+                jstr(&hex(&c.src)),
+                jbytes(&c.src),
+                jstr(&format!("compiling these {} bytes did not finish within {TIME_LIMIT_S} s", c.src.len()))
+            )
+            .unwrap();
+            codes.push(None);
+            continue;
+        };
         let mut code = None;
         match r {
             Err(msg) => {
